@@ -17,8 +17,9 @@ var c16Methods = []string{"", "OnDelete", "Recreate", "InPlace", "RollingRecreat
 const c16TargetUID = "uid-t1"
 
 type c16Gen struct {
-	r   *vh.Rng
-	adv bool
+	r    *vh.Rng
+	adv  bool
+	prop string
 }
 
 func c16Str(s string) *string { return &s }
@@ -1316,9 +1317,14 @@ func (g *c16Gen) converge(i int, seed uint64) *c16Scenario {
 		c16AddFeature(sc, "hook-ordered")
 	case 2:
 		if !updating {
-			// verbatim echo under an update-permitting strategy is the known echo-hook hot loop (composite D24)
 			h.Kind = "echo"
 			c16AddFeature(sc, "hook-echo")
+		} else if r.Chance(1, 3) && g.prop == "C01d" {
+			// verbatim echo under an update-permitting strategy: the known echo-hook hot loop (D24d), a small share,
+			// in the convergence leg only (the echoed bookkeeping annotation is outside the per-sync model's domain)
+			h.Kind = "echo"
+			c16AddFeature(sc, "hook-echo")
+			c16AddFeature(sc, "hook-echo-updating")
 		} else {
 			c16AddFeature(sc, "hook-const")
 		}
@@ -1435,6 +1441,103 @@ func (g *c16Gen) discoveryLoss(i int, seed uint64) *c16Scenario {
 		sc.Rounds = append([]c16RoundSpec{{}}, sc.Rounds...)
 	}
 	c16AddFeature(sc, "discovery-loses-attachment-resource")
+	return sc
+}
+
+// failedWrite: the metadata update of the target fails with a non-conflict error (500 / 403 / 422); the work item
+// is retried on the SAME controller and caches (no watch event in between), then once more on fresh ones. The
+// retry has to send the update again.
+func (g *c16Gen) failedWrite(i int, seed uint64) *c16Scenario {
+	r := g.r
+	sc := g.basic("failed-write", i, seed)
+	var rule c16RuleSpec
+	for _, ru := range sc.Ctl.Rules {
+		if ru.Kind == sc.Target["kind"] {
+			rule = ru
+		}
+	}
+	lm := c16Meta(sc.Target, "labels")
+	c16Satisfy(lm, rule.Labels)
+	am := c16Meta(sc.Target, "annotations")
+	c16Satisfy(am, rule.Annotations)
+	md := sc.Target["metadata"].(map[string]interface{})
+	md["labels"], md["annotations"] = lm, am
+	sc.Ctl.Finalize, sc.Ctl.NoSync = false, false
+	sc.Hook2 = nil
+	sc.Warmup = 0
+	h := c16HookProgram{Kind: "const", Labels: map[string]*string{"deco-fw": c16Str(fmt.Sprintf("v%d", r.Intn(3)))}, Attachments: sc.Hook.Attachments}
+	if r.Bool() {
+		h.Annotations = map[string]*string{"deco-fw-note": c16Str("n")}
+	}
+	if r.Chance(1, 3) {
+		for k := range lm {
+			if k != "managed" && k != "tier" && k != "app" && k != "env" {
+				h.Labels[k] = nil // a null for a present key
+				break
+			}
+		}
+	}
+	if r.Chance(1, 4) {
+		h.StatusMode, h.Status = "const", c16J{"phase": "FW"}
+	}
+	sc.Hook = h
+	f := []c16FaultOn{{Code: 500, Reason: "InternalError"}, {Code: 403, Reason: "Forbidden"}, {Code: 422, Reason: "Invalid"}}[r.Intn(3)]
+	f.Verb, f.Kind, f.AfterHook = "update", sc.Target["kind"].(string), true
+	c16AddFeature(sc, fmt.Sprintf("fault-%d", f.Code))
+	sc.Rounds = []c16RoundSpec{{FaultOn: []c16FaultOn{f}}, {SameController: true, Stale: true}, {}}
+	if r.Chance(1, 3) {
+		// two failures in a row on the same caches
+		sc.Rounds = []c16RoundSpec{{FaultOn: []c16FaultOn{f}}, {SameController: true, Stale: true, FaultOn: []c16FaultOn{f}}, {SameController: true, Stale: true}, {}}
+	}
+	c16AddFeature(sc, "failed-write-then-retry")
+	return sc
+}
+
+// sharedFail: two decorators on one target take their informers from one factory; the co-decorator syncs first
+// and its write of the target fails (or succeeds without a watch event reaching the cache); the decorator under
+// test then syncs from the same caches and may write only what its own hook named
+func (g *c16Gen) sharedFail(i int, seed uint64) *c16Scenario {
+	r := g.r
+	sc := g.basic("shared-fail", i, seed)
+	var rule c16RuleSpec
+	for _, ru := range sc.Ctl.Rules {
+		if ru.Kind == sc.Target["kind"] {
+			rule = ru
+		}
+	}
+	lm := c16Meta(sc.Target, "labels")
+	c16Satisfy(lm, rule.Labels)
+	am := c16Meta(sc.Target, "annotations")
+	c16Satisfy(am, rule.Annotations)
+	md := sc.Target["metadata"].(map[string]interface{})
+	md["labels"], md["annotations"] = lm, am
+	sc.Ctl.Finalize, sc.Ctl.NoSync = false, false
+	sc.Hook2 = nil
+	sc.Warmup = 0
+	sc.Hook = c16HookProgram{Kind: "const", Labels: map[string]*string{"mine": c16Str("1")}, Attachments: sc.Hook.Attachments}
+	orule := rule
+	orule.Labels, orule.Annotations = nil, nil
+	sc.Other = &c16CtlSpec{Name: "other" + fmt.Sprint(i%3), Rules: []c16RuleSpec{orule}, Attachments: sc.Ctl.Attachments}
+	oh := &c16HookProgram{Kind: "const", Labels: map[string]*string{"other-owned": c16Str("1")}, Annotations: map[string]*string{"other-note": c16Str("o")}}
+	for k := range lm {
+		if k != "managed" && k != "tier" && k != "app" && k != "env" {
+			oh.Labels[k] = nil // the co-decorator also wants a key gone
+			break
+		}
+	}
+	sc.OtherHook = oh
+	rs := c16RoundSpec{OtherFirst: true}
+	if r.Chance(3, 4) {
+		f := []c16FaultOn{{Code: 500, Reason: "InternalError"}, {Code: 403, Reason: "Forbidden"}, {Code: 422, Reason: "Invalid"}}[r.Intn(3)]
+		f.Verb, f.Kind = "update", sc.Target["kind"].(string)
+		rs.OtherFault = &f
+		c16AddFeature(sc, "co-decorator-write-fails")
+	} else {
+		c16AddFeature(sc, "co-decorator-write-unseen")
+	}
+	sc.Rounds = []c16RoundSpec{rs, {}}
+	c16AddFeature(sc, "second-decorator")
+	c16AddFeature(sc, "shared-informers")
 	return sc
 }
 
@@ -1756,7 +1859,7 @@ func c16GenerateScenarios(prop string, seed uint64, n int, adv bool) []*c16Scena
 	if prop == "C06d" {
 		strategySlots = map[int]bool{0: true, 1: true, 2: true, 3: true, 4: true, 5: true, 7: true, 10: true}
 	}
-	extra := map[int]string{6: "nulls", 9: "retries", 11: "converge"}
+	extra := map[int]string{6: "nulls", 9: "retries", 11: "converge", 12: "failed-write", 1: "shared-fail"}
 	switch prop {
 	case "C01d":
 		extra = map[int]string{}
@@ -1783,7 +1886,7 @@ func c16GenerateScenarios(prop string, seed uint64, n int, adv bool) []*c16Scena
 	}
 	for i := 0; len(out) < n || i == 0; i++ {
 		sub, s := root.Fork()
-		g := &c16Gen{r: sub, adv: adv}
+		g := &c16Gen{r: sub, adv: adv, prop: prop}
 		var sc *c16Scenario
 		pick := i % 16
 		if adv {
@@ -1805,6 +1908,10 @@ func c16GenerateScenarios(prop string, seed uint64, n int, adv bool) []*c16Scena
 				pick = 12
 			case "shared":
 				pick = 7
+			case "failed-write":
+				pick = 106
+			case "shared-fail":
+				pick = 107
 			case "converge":
 				pick = 104
 			case "discovery-loss":
@@ -1812,6 +1919,10 @@ func c16GenerateScenarios(prop string, seed uint64, n int, adv bool) []*c16Scena
 			}
 		}
 		switch pick {
+		case 106:
+			sc = g.failedWrite(i, s)
+		case 107:
+			sc = g.sharedFail(i, s)
 		case 104:
 			sc = g.converge(i, s)
 		case 105:
